@@ -9,6 +9,14 @@ props = [json.loads(l) for l in open(os.path.join(HERE, "properties.jsonl"))]
 
 E1 = "E1 symx"
 CLAIMS = {
+    "C20": dict(
+        engine="E2 loopvc",
+        level="fault_enumeration",
+        technique="fault enumeration on the real API (every fault class of the statement at every eligible row/column of the base populations, plus sampled pairs; lossless dtype variants) + E2 proof of sn_id_numpy incl. its exceptional postcondition + adversarial-magnitude enumeration of convert_series_to_internal_type",
+        text="Every injected fault must raise; every lossless dtype variant must leave all default targets unchanged and warn; float->int conversion must raise for any fractional value at magnitudes up to 2^52. sn_id_numpy's 'raises iff spouses disagree' is proved for unbounded N (37 VCs).",
+        note="messages are not contracted (pandas 3); fault classes are those named in the statement; populations from the seeded family",
+        ref="7 C20",
+    ),
     "C03": dict(
         engine=E1,
         level="proof",
@@ -16,6 +24,46 @@ CLAIMS = {
         text="For every scalar rule active in any date class 1980..2032 (all 197 classes, concrete parameters of the class, symbolic data) every feasible return path yields a Python type that converts losslessly to the declared dtype, and _vectorize_func passes that dtype as otypes; discharged by z3 for all inputs in VALID. Refutations are replayed on the real _vectorize_func(rule) with a two-row table.",
         note="A1, A2, A4; trusted: numpy.vectorize contract (elementwise, dtype = otypes), z3/cvc5, the E1 encoder (cross-checked against CPython on seeded inputs each run); arguments that are computed columns are constrained by type only",
         ref="7 C03",
+    ),
+    "C01": dict(
+        engine=E1,
+        level="exploration",
+        technique="contract-based: order-free kernel postconditions (C11/C12) and dtype independence (C03) proved elsewhere; here: E1/z3 obligation that scalar rules use person pointers only through their sign, classification of every DAG node; the API-level statement is a bounded relational contract simulate(perm(data)) = perm(simulate(data))",
+        text="Bounded: all ~320 nodes compared for ALL row permutations of populations up to 4 rows and seeded permutations beyond, random index labels, float-typed int columns, debug on/off (derived ids as partitions). Proved pieces: sign-only use of pointers in scalar rules (z3), injectivity lemmas; kernels by their order-free contracts. Not counted as proof of the whole API: interface.py glue is positional pandas code.",
+        note="floats compared at 1e-12 relative (order of a floating-point group sum is not part of the contract, A1); numpy.vectorize / dags contracts trusted; populations from the seeded family of DESIGN 7.0",
+        ref="7 C01",
+    ),
+    "C02": dict(
+        engine=E1,
+        level="exploration",
+        technique="contract-based: kernel contracts mention ids only under = and >= 0 (C11/C12), scalar rules use pointers sign-only (E1/z3 here), id-injectivity lemmas; the API-level statement is a bounded relational contract simulate(A ++ B)|A = simulate(A) and relabelling equivariance",
+        text="Bounded: random pairs of household sets with disjoint ids in three layouts (B first, A first, interleaved) and three relabellings (reversal, a person mapped to 0, gaps), all nodes compared; plus the proved sign-only / injectivity obligations.",
+        note="as C01",
+        ref="7 C02",
+    ),
+    "C04": dict(
+        engine="E3 frame",
+        level="exploration",
+        technique="purity of all node functions by frame contracts (E3) + dags contract gives 'value is a function of the ancestors'; the binding of functions to names under different target sets / extra data columns is a bounded relational contract on the real API",
+        text="Bounded (stated as such): singleton / random / default / all-node target sets, extra unused columns incl. base names of group-level functions, debug and minimal-specification options, three index labellings; values bit-identical, one row per input row in input order, exactly the requested columns.",
+        note="dags contract trusted; purity lemma by E3; nothing beyond the purity lemma is proved for this property",
+        ref="7 C04",
+    ),
+    "C05": dict(
+        engine="E3 frame",
+        level="exploration",
+        technique="purity (E3) and dtype = declared type (C03) elsewhere; guards against creating derived nodes for data columns checked on the real functions; substitution property as a bounded relational contract on the real API",
+        text="Bounded (stated as such): nodes of every class supplied with the values the system computes (DataFrame and dict-of-Series input with differing indexes): default targets unchanged, overlap warning names the node, supplied values are used (never silently ignored) or the call refuses loudly.",
+        note="comparison at 1e-12 relative; time-unit nodes are not rules and need no overlap warning",
+        ref="7 C05",
+    ),
+    "C06": dict(
+        engine="E3 frame",
+        level="proof",
+        technique="contract-based: E3 frame contracts (rules pure, parameters only through arguments; loaders write no argument / module state, nothing memoised) + exhaustive contract check of the partial wiring on the real function universe of every function-set class + graph fact on the real DAG; bounded perturbation runs for the glue",
+        text="Locality follows from: every rule is pure and reads parameters only via its <group>_params arguments (396 rules, E3); each function is partialled with exactly its own groups' objects (36664 function instances, exhaustive); loaders hand out fresh objects; hence a column outside descendants(users(g)) has no path from g. Bounded stand-in: every group perturbed, rules cloned / replaced, deep copies, baseline after reform runs, in-place reform of a second environment -- all ~320 columns compared bit-for-bit.",
+        note="dags contract trusted; E3 is a conservative syntactic checker with a pure list; set-up-time derived values do not follow later perturbations (less change, not more)",
+        ref="7 C06",
     ),
     "C07": dict(
         engine="E4 symdate",
